@@ -1,0 +1,12 @@
+//go:build !verif
+
+package decision
+
+import (
+	wl "github.com/ipfs/boxo/bitswap/client/wantlist"
+	bsmsg "github.com/ipfs/boxo/bitswap/message"
+)
+
+// Schedule points of the verification build (see engine_verif.go); no-ops here.
+func verifOrderTiesEntries([]bsmsg.Entry) {}
+func verifOrderTiesWants([]wl.Entry)      {}
